@@ -167,6 +167,27 @@ def _planted(fault, level, cont, w):
             par2.m0 = build(c02.base(w, 2)[1] if False else c02.base(w, 2)[0].insts[0].of)(a=par2.s, g=par2.t)
             return got.SerializeToString(deterministic=True) == _bytes(par2) or _fail("parent of shared sub-modules differs from fresh")
         return True
+    if cont == 4:
+        # the designer replaces the offending module: the parent's instance of it now refers to a valid module
+        # (which itself uses no-connects, port references, bundles, an array and a pair). The edited parent no longer
+        # contains the offending module and must elaborate to what a fresh process gives for the same program.
+        if level == 0:
+            return True  # the offending module is the top itself
+        try:
+            m.m0 = b.bmod(_fresh_mid(top_d, w))(a=m.s, g=m.t)
+        except Exception as e:
+            # (a name clash is detected by the exporter, after elaboration succeeded: elaborated modules refuse edits)
+            return "after elaboration" in str(e) or _fail("replacing the offending instance raised: " + _norm(e)[:200])
+        try:
+            got = _bytes(m)
+        except Exception as e:
+            return _fail("a design no longer containing the offending module raised: " + _norm(e)[-300:])
+        env._reset_all()
+        top_t = c02.plant(fault, level, 1, w, 2)
+        bt = Builder()
+        mt = bt.bmod(top_t)
+        mt.m0 = bt.bmod(_fresh_mid(top_t, w))(a=mt.s, g=mt.t)
+        return got == _bytes(mt) or _fail("the edited design exported something a fresh process would not")
     # cont == 3: repair the planted fault and retry: fresh result or an exception, never something else
     rep = REPAIRS.get(fault)
     if rep is None:
@@ -192,6 +213,17 @@ def _planted(fault, level, cont, w):
     except Exception:
         return _fail("repaired design exported although a fresh process rejects it")
     return got == want or _fail("repaired design exported something a fresh process would not")
+
+
+def _fresh_mid(top_d, w):
+    """the valid Mid of c02.base, instantiating the same (already built) child modules as the planted design's Mid"""
+    have = {}
+    for i in top_d.insts[0].of.insts:
+        have.setdefault(getattr(i.of, "name", None), i.of)
+    mid2 = c02.base(w, 2)[1]
+    for i in mid2.insts:
+        i.of = have.get(getattr(i.of, "name", None), i.of)
+    return mid2
 
 
 def _generator(nfail, a):
@@ -249,15 +281,15 @@ def injected_pass(p, mi, cont, w):
         return _injected(p, mi, cont, w)
 
 
-@harness("C08", args="fault: int, level: int, cont: int, w: int", pre=[f"0 <= fault < {c02.NFAULT}", "0 <= level <= 1", "0 <= cont <= 3", "1 <= w <= 2"],
-         tiers={"quick": {"timeout": 170, "pre": ["w == 2"], "parts": parts_over("cont", range(4))},
-                "thorough": {"timeout": 900, "parts": parts_product(parts_over("cont", range(4)), parts_over("level", range(2)))}},
+@harness("C08", args="fault: int, level: int, cont: int, w: int", pre=[f"0 <= fault < {c02.NFAULT}", "0 <= level <= 1", "0 <= cont <= 4", "1 <= w <= 2"],
+         tiers={"quick": {"timeout": 170, "pre": ["w == 2"], "parts": parts_over("cont", range(5))},
+                "thorough": {"timeout": 900, "parts": parts_product(parts_over("cont", range(5)), parts_over("level", range(2)))}},
          sample=(6, 1, 3, 2),
-         bounds=f"every C02 fault class ({c02.NFAULT}) at top level / one level down, detected by whichever checking or rewriting pass catches it (incl. faults detected after arrays / bundles / instance bundles were already popped), x 4 continuations; repairs for 7 fault classes",
+         bounds=f"every C02 fault class ({c02.NFAULT}) at top level / one level down, detected by whichever checking or rewriting pass catches it (incl. faults detected after arrays / bundles / instance bundles were already popped), x 5 continuations (the fifth: the parent's instance of the offending module is replaced by a valid module, then the parent is exported); repairs for 7 fault classes",
          generalises="fault / location / continuation selectors (solver-enumerated)", outside="")
 def planted_fault(fault, level, cont, w):
     P = env.pick
-    fault, level, cont, w = P(fault, 0, c02.NFAULT - 1), P(level, 0, 1), P(cont, 0, 3), P(w, 1, 2)
+    fault, level, cont, w = P(fault, 0, c02.NFAULT - 1), P(level, 0, 1), P(cont, 0, 4), P(w, 1, 2)
     with env.notrace():
         return _planted(fault, level, cont, w)
 
